@@ -440,8 +440,15 @@ GenNext ==
            lf   == ListField(T)
            more == IF lf = "" THEN 0 ELSE <<0, 0, 0, 1, 1, 2>>[RandomElement(1..6)]
        IN \E m \in RandomSubset(1, pick) :
-          \E m2 \in RandomSubset(1, IF good # {} /\ RandomElement(1..3) > 1 THEN good ELSE ms) :
-          \E m3 \in RandomSubset(1, ms) :
+          \* entries to append: mostly drawn from messages of the SAME signer that the specification
+          \* accepts and that name something else than m does (so that long lists usually succeed
+          \* and touch several rows); sometimes from anywhere
+          LET same == {x \in good : SignerOf(x) = SignerOf(m) /\ (lf = "" \/ x[lf] # m[lf])}
+              src2 == IF same # {} /\ RandomElement(1..4) > 1 THEN same
+                      ELSE IF good # {} /\ RandomElement(1..3) > 1 THEN good ELSE ms
+          IN
+          \E m2 \in RandomSubset(1, src2) :
+          \E m3 \in RandomSubset(1, IF same # {} /\ RandomElement(1..2) = 1 THEN same ELSE ms) :
             Step(IF more = 0 THEN m
                  ELSE IF more = 1 THEN [m EXCEPT ![lf] = @ \o m2[lf]]
                  ELSE [m EXCEPT ![lf] = @ \o m2[lf] \o m3[lf]])
